@@ -121,6 +121,12 @@ func genConforming(t *rapid.T) Case {
 				f = rapid.SampledFrom([]int{0, 0, 0, 0, 1, 1, 2, 2, 3}).Draw(t, "faults")
 			}
 			c.Faults = append(c.Faults, f)
+		case k < 75 && !c.TCP:
+			st = Step{Op: "write-pair", N: rapid.SampledFrom([]int{8, 40, 300, 2000}).Draw(t, "pair_n1"), N2: rapid.SampledFrom([]int{8, 40, 300, 2000}).Draw(t, "pair_n2"), Seed: rapid.Uint64().Draw(t, "seed")}
+			if c.SlowWriteUS == 0 {
+				c.SlowWriteUS = rapid.SampledFrom([]int{60, 200, 500}).Draw(t, "slow_write_us")
+			}
+			c.Faults = append(c.Faults, 0, 0)
 		case k < 86:
 			st = Step{Op: "read", N: rapid.IntRange(1, 40).Draw(t, "nreads")}
 		case k < 90:
